@@ -247,3 +247,75 @@ Theorem C02_refuted_K_ctor_keyword_param :
   exists nd, new_of [w_k] plain_flags 4 w_k = COk nd /\ nd_params nd = [("type", "string")].
 Proof. split; [vm_compute; reflexivity|]. eexists. split; vm_compute; reflexivity. Qed.
 Print Assumptions C02_refuted_K_ctor_keyword_param.
+
+(* K_ctor_foreign_unexported: Go's export rule.  T{ bytes.Buffer; n int }: the model (like
+   the code) makes buf/off/lastRead parameters and literal elements of bytes.Buffer{...};
+   no Go program outside package bytes can name them, so there is no NewT to speak about *)
+Definition w_buffer := {| sd_pkg := "bytes"; sd_name := "Buffer"; sd_tparams := []; sd_doc := "";
+                          sd_fields := [fd ["buf"] (TSlice (TBasic "byte")); fd ["off"] (TBasic "int");
+                                        fd ["lastRead"] (TNamed "bytes" "readOp" [])] |}.
+Definition w_tb := st "T" [fd [] (TNamed "bytes" "Buffer" []); fd ["n"] (TBasic "int")].
+Theorem C02_refuted_K_ctor_foreign_unexported :
+  foreign_fields_exported [w_buffer; w_tb] 4 w_tb = false /\ c02_guard_core [w_buffer; w_tb] 4 w_tb = true /\
+  exists nd, new_of [w_buffer; w_tb] plain_flags 4 w_tb = COk nd /\
+             nd_params nd = [("buf", "[]byte"); ("off", "int"); ("lastRead", "bytes.readOp"); ("n", "int")].
+Proof. split; [vm_compute; reflexivity|]. split; [vm_compute; reflexivity|]. eexists. split; vm_compute; reflexivity. Qed.
+Print Assumptions C02_refuted_K_ctor_foreign_unexported.
+
+(* K_ctor_ambiguous_promoted: Top{ Son; Mid; w } with Son.x and Mid.x is legal Go (x is just not
+   a selector of Top); both become parameters: the parameter list has a duplicate name *)
+Definition w_son4 := st "Son" [fd ["x"] (TBasic "int"); fd ["m"] (TBasic "string")].
+Definition w_mid4 := st "Mid" [fd ["x"] (TBasic "int"); fd ["n"] (TBasic "string")].
+Definition w_top4 := st "Top" [fd [] (TNamed "" "Son" []); fd [] (TNamed "" "Mid" []); fd ["w"] (TBasic "int")].
+Theorem C02_refuted_K_ctor_ambiguous_promoted :
+  unambiguous [w_son4; w_mid4; w_top4] 4 w_top4 = false /\
+  resolve [w_son4; w_mid4; w_top4] 4 w_top4 "x" = None /\
+  exists nd, new_of [w_son4; w_mid4; w_top4] plain_flags 4 w_top4 = COk nd /\
+             map fst (nd_params nd) = ["x"; "m"; "x"; "n"; "w"].
+Proof. split; [vm_compute; reflexivity|]. split; [vm_compute; reflexivity|]. eexists. split; vm_compute; reflexivity. Qed.
+Print Assumptions C02_refuted_K_ctor_ambiguous_promoted.
+
+(* K_ctor_camel_collision: userName and user_name have one camel form: duplicate parameter *)
+Definition w_user := st "User" [fd ["userName"] (TBasic "string"); fd ["user_name"] (TBasic "string")].
+Theorem C02_refuted_K_ctor_camel_collision :
+  param_names_ok [w_user] 4 w_user = false /\
+  exists nd, new_of [w_user] plain_flags 4 w_user = COk nd /\ map fst (nd_params nd) = ["userName"; "userName"].
+Proof. split; [vm_compute; reflexivity|]. eexists. split; vm_compute; reflexivity. Qed.
+Print Assumptions C02_refuted_K_ctor_camel_collision.
+
+(* K_ctor_embed_tag_ignored: a new:"-" tag on an embedded field excludes nothing *)
+Definition w_base5 := st "Base" [fd ["z"] (TBasic "string"); fd ["q"] (TBasic "int")].
+Definition w_u5 := st "U" [fdd [] (TNamed "" "Base" []) "" (Some "`new:""-""`"); fd ["y"] (TBasic "int")].
+Theorem C02_refuted_K_ctor_embed_tag_ignored :
+  no_tagged_embed [w_base5; w_u5] 4 w_u5 = false /\
+  exists nd, new_of [w_base5; w_u5] plain_flags 4 w_u5 = COk nd /\ map fst (nd_params nd) = ["z"; "q"; "y"].
+Proof. split; [vm_compute; reflexivity|]. eexists. split; vm_compute; reflexivity. Qed.
+Print Assumptions C02_refuted_K_ctor_embed_tag_ignored.
+
+(* K_ctor_promoted_def_ignored: Base declares q with def=5; in W{ Base; k (new) } q is not a
+   parameter and yet NewW leaves it zero *)
+Definition w_base6 := st "Base" [fdd ["q"] (TBasic "int") ("shoot: def=5" ++ nl) None; fd ["z"] (TBasic "string")].
+Definition w_w6 := st "W" [fd [] (TNamed "" "Base" []); fdd ["k"] (TBasic "int") ("shoot: new" ++ nl) None].
+Theorem C02_refuted_K_ctor_promoted_def_ignored :
+  no_promoted_def [w_base6; w_w6] 4 w_w6 = false /\ def_text w_base6 ["q"] = "5" /\
+  exists nd, new_of [w_base6; w_w6] plain_flags 4 w_w6 = COk nd /\ map fst (nd_params nd) = ["k"] /\
+    exists v, eval_new [w_base6; w_w6] 4 w_w6 (nd_body nd) (fun _ => VSent 1) = Ok v /\
+              lookup v ["Base"; "q"] = Ok VZero.
+Proof.
+  split; [vm_compute; reflexivity|]. split; [vm_compute; reflexivity|].
+  eexists. split; [vm_compute; reflexivity|]. split; [reflexivity|].
+  eexists. split; [vm_compute; reflexivity|]. reflexivity.
+Qed.
+Print Assumptions C02_refuted_K_ctor_promoted_def_ignored.
+
+(* generics, second half: NewT returns *T instantiated with exactly the struct's own type
+   parameters, in order (for identifier constraints) *)
+Theorem C02_generics_result_type : forall sd,
+  ident_constraints sd = true ->
+  new_result_type sd =
+  "*" ++ sd_name sd ++ match sd_tparams sd with
+                       | [] => ""
+                       | gs => "[" ++ String.concat ", " (map (fun g => String.concat ", " (tp_names g)) gs) ++ "]"
+                       end.
+Proof. exact new_result_type_spec. Qed.
+Print Assumptions C02_generics_result_type.
